@@ -73,6 +73,9 @@ def run(run):
     _r4_cleanup(run)
     _r5_pixelization(run)
     _r8_pairing(run)
+    # R8's other half: collection.images() itself hands out one image per input, in step with descriptions() (C20.R6)
+    common.delegate(run, "C09.R8", "C20", lambda sub: c20._r6_one_item_per_input(sub), only_rules={"C20.R6"},
+                    note="premise: images() and the descriptor list stay in step")
     # an input is merged into a shared tile through update_into_maskable_buffer: exactly its defined pixels are copied, per
     # mode (C15's convention rule) - a defined pixel the merge skips is missing from the tile but present in the pasted mosaic
     from . import C15 as c15
